@@ -95,7 +95,8 @@ def main():
         json.dump({"Replace": repl}, open(ov, "w"))
         res["changed_files"] = [k.replace(REPO + "/", "") for k in repl]
         binp = os.path.join(tmp, "cctpmc")
-        env = dict(ENVB, VERIF_BUILD_FLAGS="-overlay " + ov, VERIF_BIN=binp, VERIF_RACE="1")
+        want_race = "C18" in os.path.basename(d) or checks == "C18"
+        env = dict(ENVB, VERIF_BUILD_FLAGS="-overlay " + ov, VERIF_BIN=binp, VERIF_RACE="1" if want_race else "0", VERIF_SKIP_RACE="0" if want_race else "1")
         rc, out = sh([os.path.join(VERIF, "build.sh")], env=env)
         if rc != 0:
             res["overlay_build_failed"] = out[-1500:]
